@@ -64,6 +64,27 @@ class ArgParseFamily:
             scns.append(json.loads(m.group(1).replace('\\"', '"').replace('\\\\', '\\')))
         return states, gen, scns, d, dict(decls=decls, maxlen=maxlen, popts=len(b['popts']), handlers=b['handlers'], policy=b['policy'])
 
+    def mc_spell(self, ctx):
+        """C02: exhaustive pair model MC_Spell"""
+        thorough = ctx.tier == 'thorough'
+        d = ctx.specdir('mc')
+        cat = os.path.join(ROOT, 'catalog', 'argparse.ndjson')
+        ctx.vh('decls', '-trees', cat, '-decls', os.path.join(d, 'catalog_decls.ndjson'))
+        decls = [1, 2, 3, 6, 8, 9] if thorough else [1, 9]
+        ctxlen = 1 if not thorough else 1
+        popts = ['<<>>', '<<"PassDoubleDash">>'] + (['<<"IgnoreUnknown", "PassAfterNonOption">>'] if thorough else [])
+        open(os.path.join(d, 'MCrun.tla'), 'w').write('---- MODULE MCrun ----\nEXTENDS MC_Spell\nc_POptSets == {%s}\n====\n' % ', '.join(popts))
+        cfg = ('SPECIFICATION Spec\nCONSTANTS\n  Defects = {}\n  DeclIds = {%s}\n  CtxLen = %d\n  POptSets <- c_POptSets\n  Emit = TRUE\n'
+               'INVARIANTS PairAgree EmitPair\nCHECK_DEADLOCK FALSE\n' % (', '.join(map(str, decls)), ctxlen))
+        rc, out = ctx.tlc(d, 'MCrun', cfg, workers=NCPU, timeout=3000)
+        if not ctx.tlc_ok(out):
+            raise Infra('exhaustive pair model did not complete cleanly:\n' + ctx.tlc_error_summary(out))
+        states, gen = ctx.tlc_counts(out)
+        scns = []
+        for m in re.finditer(r'^"SCN (.*)"$', out, re.M):
+            scns.append(json.loads(m.group(1).replace('\\"', '"').replace('\\\\', '\\')))
+        return states, gen, scns, d, dict(decls=decls, ctxlen=ctxlen, popts=len(popts), pairs=len(scns))
+
     def run(self, ctx):
         prop = ctx.prop
         assumptions = [
@@ -79,8 +100,15 @@ class ArgParseFamily:
         samples = []
         domcount = 0
         drift = 0
-        if prop in ARG_MC:
-            mc_states, mc_trans, scns, d, mcinfo = self.mc(ctx, prop)
+        if prop in ARG_MC or prop == 'C02':
+            if prop == 'C02':
+                mc_states, mc_trans, scns, d, mcinfo = self.mc_spell(ctx)
+                if ctx.tier == 'quick' and len(scns) > 120000:      # replay a seeded sample of the enumerated pairs in the quick tier
+                    import random
+                    random.Random(ctx.seed).shuffle(scns)
+                    scns = scns[:120000]
+            else:
+                mc_states, mc_trans, scns, d, mcinfo = self.mc(ctx, prop)
             ctx.log('exhaustive model: %d distinct states, %d scenarios enumerated' % (mc_states, len(scns)))
             scen = os.path.join(ctx.work, 'mc_scen.ndjson')
             with open(scen, 'w') as f:
